@@ -69,6 +69,9 @@ class Ctx:
         key keeps it from being a violation."""
         if key is not None and key in self.open_findings:
             self.known_hits[key] = self.known_hits.get(key, 0) + 1
+            ex = self.__dict__.setdefault("known_examples", {}).setdefault(key, [])
+            if len(ex) < 3:
+                ex.append(str(what)[:400])
             return False
         self.violations.append(dict(key=key, what=what, detail=detail, cls=cls))
         return True
@@ -77,6 +80,10 @@ class Ctx:
     def finish(self, coverage, level="model_checking", assumptions=None):
         os.makedirs(EVID, exist_ok=True)
         rep_dir = os.path.join(EVID, "replays")
+        if not self.replay and os.path.isdir(rep_dir):        # replay files of earlier runs of this property are stale now
+            for fn in os.listdir(rep_dir):
+                if fn.startswith(self.pid + "-"):
+                    os.remove(os.path.join(rep_dir, fn))
         for key, cnt in sorted(self.known_hits.items()):
             f = self.open_findings[key]
             print("KNOWN-FINDING: property=%s %s: %s (%d occurrences this run)" % (self.pid, key, f.get("what", ""), cnt))
@@ -102,6 +109,7 @@ class Ctx:
         cov.setdefault("samples", [])
         cov["tlc_runs"] = self.tlc_runs
         cov["known_findings_hit"] = self.known_hits
+        cov["known_findings_examples"] = getattr(self, "known_examples", {})
         cov["violation_classes"] = {k: len(v) for k, v in shown.items()}
         if self.notes:
             cov["notes"] = self.notes
